@@ -7,7 +7,7 @@ from ..engine import explore
 from ..values import SymBool, SymInt, SymRat
 from ..stubs import sched as S, iostub
 from .. import loader
-from . import thr, tok
+from . import byt, thr, tok
 from .c12 import sig, compact
 
 I = z3.Int
@@ -287,6 +287,119 @@ def replay_export(c):
     return [("C13: exported %s file of a long stream wrong" % c["fmt"], fails[0])]
 
 
+# ------------------------------------------------------------------ the saver on symbolic audio *content*
+def seq_bytes(v):
+    """bytes of a z3 sequence-of-bit-vector value"""
+    if z3.is_app(v):
+        k = v.decl().kind()
+        if k == z3.Z3_OP_SEQ_UNIT:
+            c = v.arg(0)
+            return bytes([c.as_long()]) if z3.is_bv_value(c) else b"\0"
+        if k == z3.Z3_OP_SEQ_CONCAT:
+            return b"".join(seq_bytes(v.arg(i)) for i in range(v.num_args()))
+        if k == z3.Z3_OP_SEQ_EMPTY:
+            return b""
+    try:
+        return v.as_string().encode("latin-1")
+    except Exception:
+        return b""
+
+
+def drive_saver(mods, s, data, block_dur, cache_sec, K):
+    """the main thread plays the tokenizer: K+1 reads through the saver, then waits for the writer thread"""
+    W, util = mods["workers"], mods["util"]
+    reader = util.AudioReader(data, block_dur=block_dur, sr=10, sw=1, ch=1)
+    saver = W.StreamSaverWorker(reader, filename="sym.wav", export_format=None, cache_size_sec=cache_sec)
+    saver.start()
+    reader.open()
+    blocks = []
+    for _ in range(K + 1):
+        b = saver.read()
+        if b is None:
+            break
+        blocks.append(b)
+    saver.join()
+    thr.neutralise([saver])
+    return blocks
+
+
+def symbolic_saver_harness(L, K):
+    """every byte of the audio, the block size and the cache threshold are symbolic: whatever the blocks *contain*, the file
+    holds exactly the blocks read"""
+    from ..values import SymBytes, bytes_eq_formula, lift
+
+    def path(e):
+        s = S.Sched(e, max_timeouts=0, max_preempt=0)
+        fs = iostub.FS()
+        iostub.install(L, fs)
+        D, data = byt.sym_audio(e, "D", 1)
+        n, B, cb = D.nsamples, I("B"), I("cache_bytes")
+        e.assume(z3.And(B >= 1, B <= 64, n <= K * B, cb >= 0))
+        meta = dict(what="symbolic-content", K=K)
+        e.add(D.axiom())
+
+        def mkc(m):
+            c = dict(meta, n=byt.iv(m, n), B=byt.iv(m, B), cache_bytes=byt.iv(m, cb), schedule=[list(x) for x in s.log])
+            raw = seq_bytes(m.eval(D.seq, model_completion=True))
+            c["audio"] = list((raw + bytes(c["n"]))[:c["n"]])
+            return c
+        fails, conds = [], {}
+        try:
+            blocks = drive_saver(L.modules, s, data, SymRat(B, 10), SymRat(cb, 10), K)
+            ent = fs.files.get("sym.wav")
+            if ent is None:
+                fails.append("stream file not written")
+            else:
+                want = SymBytes([])
+                for b in blocks:
+                    want = want + lift(b)
+                conds["saved stream holds exactly the blocks read"] = bytes_eq_formula(lift(ent.data), want)
+                conds["header and closing"] = (ent.rate, ent.width, ent.channels) == (10, 1, 1) and bool(getattr(ent, "finalised", False))
+        except (S.Outcome, S.ThreadCrashed) as ex:
+            fails.append(str(ex))
+        finally:
+            s.cleanup()
+        if fails:
+            m = e.model()
+            return {"status": "cex", "failing": fails[:2], "cex": mkc(m) if m is not None else None}
+        return tok.discharge(e, conds, mkc)
+    return path
+
+
+def replay_symbolic(c):
+    import os
+    import shutil
+    import tempfile
+    import wave as _wave
+    mods = thr.load_real()
+    data = bytes(c["audio"])
+    tmp = tempfile.mkdtemp(prefix="sxv-c13-")
+    cwd = os.getcwd()
+    os.chdir(tmp)
+    s = S.Sched(None, max_timeouts=50, max_preempt=10 ** 6)
+    s.script = [tuple(x) for x in c["schedule"]]
+    fails = []
+    try:
+        try:
+            blocks = drive_saver(mods, s, data, c["B"] / 10, c["cache_bytes"] / 10, c["K"])
+            with _wave.open("sym.wav", "rb") as f:
+                got = f.readframes(-1)
+            if got != b"".join(blocks):
+                fails.append("saved stream holds %d bytes, the blocks read hold %d" % (len(got), sum(map(len, blocks))))
+        except (S.Outcome, S.ThreadCrashed) as ex:
+            fails.append(str(ex))
+        except Exception as ex:
+            fails.append("raised %s: %s" % (type(ex).__name__, str(ex)[:80]))
+        finally:
+            s.cleanup()
+    finally:
+        os.chdir(cwd)
+        shutil.rmtree(tmp, ignore_errors=True)
+    if not fails:
+        return []
+    return [("C13: saved stream wrong for particular audio content", "audio %r in blocks of %d, cache %d bytes: %s" % (data, c["B"], c["cache_bytes"], fails[0]))]
+
+
 def mk(m, meta, s, cb):
     c = dict(meta)
     c["valid"] = thr.bits_from_model(m, meta["K"]) if m is not None else [False] * meta["K"]
@@ -302,6 +415,8 @@ def replay_fn(c):
     import wave as _wave
     if c.get("what") == "export":
         return replay_export(c)
+    if c.get("what") == "symbolic-content":
+        return replay_symbolic(c)
     mods = thr.load_real()
     core = mods["core"]
     K = c["K"]
@@ -376,6 +491,11 @@ def run(rep):
         ex = explore(harness(L, cf["what"], cf["K"], cf["pre"], cf["to"], cf.get("sil0", False)), max_decisions=3000, path_wall_s=30)
         rep.add_exploration(hn, ex, bounds=cf)
         tok.handle_cex(rep, hn, ex, replay_fn)
+    rep.bounds["symbolic content"] = "stream saver alone, main thread reading: <= 2 (thorough 3) blocks of 1..64 one-byte samples, every byte, the block size and the cache threshold symbolic; no pre-emption"
+    hn = "saver on symbolic content[K=%d]" % (2 if rep.tier == "quick" else 3)
+    ex = explore(symbolic_saver_harness(L, 2 if rep.tier == "quick" else 3), max_decisions=3000, path_wall_s=120, timeout_ms=60000)
+    rep.add_exploration(hn, ex)
+    tok.handle_cex(rep, hn, ex, replay_fn)
     rep.bounds["long streams"] = "a concrete, entirely active stream of %d windows of %d samples saved, joined and exported as raw and as wav (no pre-emption, no time-out); for raw, stale files sit under the names of the temporary wav files" % (LONG["K"], LONG["SPW"])
     for fmt, joiner in (("raw", True), ("wav", False)) if rep.tier == "quick" else (("raw", True), ("wav", True), ("raw", False)):
         hn = "export[%s%s,%d frames]" % (fmt, ",joiner" if joiner else "", LONG["K"] * LONG["SPW"])
